@@ -57,12 +57,13 @@ import (
 //     2.7 MB (CustomReportDetails' map[string]string), 1.6 MB ([]profile.Property), 1.0 MB
 //     (a 262144*4-byte string buffer). With the proposed TagsUpdate repair (two map levels capped
 //     at MaxPreAllocSize) it is 5.2 MB. 24 MiB is 9x resp. 4.6x that.
-//   - per byte: the largest (alloc - fixed part)/len observed on payloads >= 4 KiB is about 100-140
-//     (NBT and JSON text components captured twice, command graphs); 512 is >= 3.6x the largest
-//     value ever seen including the fixed part (278) and >= 4x the real expansion.
+//   - per byte: the largest (alloc - fixed part of the type)/len observed on payloads >= 4 KiB is
+//     156 for list decoders (tab list entries), 100-110 for text components (captured as JSON,
+//     NBT and string) and, still inflated by map pre-allocation, 197-244 for the two map
+//     decoders; 1024 is 4.2x the largest of these.
 const (
 	allocFixedCap = 24 << 20 // 24 MiB
-	allocPerByte  = 512      // bytes allocated per payload byte
+	allocPerByte  = 1024     // bytes allocated per payload byte
 	caseWatchdog  = 8 * time.Second
 	addressSpace  = 6 << 30 // RLIMIT_AS of a child
 )
@@ -335,6 +336,7 @@ type typeStat struct {
 	MaxAlloc      uint64  `json:"max_alloc"`
 	MaxAllocLen   int     `json:"max_alloc_payload_len"`
 	MaxRatio      float64 `json:"max_alloc_per_byte_over_4k"`
+	MaxResidual   float64 `json:"max_alloc_minus_fixed_part_per_byte_over_4k"`
 	MaxTinyAlloc  uint64  `json:"max_alloc_payload_le_64"`
 	MaxDurationMs float64 `json:"max_ms"`
 }
@@ -524,6 +526,13 @@ func TestC05Child(t *testing.T) {
 		if len(payload) >= 4096 {
 			if ratio := float64(delta) / float64(len(payload)); ratio > st.MaxRatio {
 				st.MaxRatio = ratio
+			}
+			// the same with the type's fixed part (its largest allocation on a tiny payload so
+			// far) taken out: the per-byte expansion proper
+			if delta > st.MaxTinyAlloc {
+				if rr := float64(delta-st.MaxTinyAlloc) / float64(len(payload)); rr > st.MaxResidual {
+					st.MaxResidual = rr
+				}
 			}
 		}
 		if ms := float64(dur.Microseconds()) / 1000; ms > st.MaxDurationMs {
@@ -893,7 +902,7 @@ func TestC05(t *testing.T) {
 		inViolation[q] = true
 	}
 	var maxTiny uint64
-	var maxRatio float64
+	var maxRatio, maxResidual float64
 	for k, s := range merged.Types {
 		if inViolation[k] {
 			continue
@@ -904,13 +913,20 @@ func TestC05(t *testing.T) {
 		if s.MaxRatio > maxRatio {
 			maxRatio = s.MaxRatio
 		}
+		if s.MaxResidual > maxResidual {
+			maxResidual = s.MaxResidual
+		}
 	}
 	if maxTiny > 0 {
 		r.Set("calibration_margin_fixed_cap_over_observed", fmt.Sprintf("%.1fx (cap %d / observed %d)", float64(allocFixedCap)/float64(maxTiny), allocFixedCap, maxTiny))
 	}
 	if maxRatio > 0 {
-		r.Set("calibration_margin_per_byte_over_observed_incl_fixed_part", fmt.Sprintf("%.1fx (%d / observed %.0f)", float64(allocPerByte)/maxRatio, allocPerByte, maxRatio))
+		r.Set("calibration_observed_alloc_per_byte_incl_fixed_part", fmt.Sprintf("%.0f (a fixed pre-allocation divided by a 4 KiB payload dominates this figure; the bound adds the fixed cap separately)", maxRatio))
 	}
+	if maxResidual > 0 {
+		r.Set("calibration_margin_per_byte_over_observed", fmt.Sprintf("%.1fx (%d / observed %.0f, fixed part of the type taken out)", float64(allocPerByte)/maxResidual, allocPerByte, maxResidual))
+	}
+	r.Set("calibration_max_alloc_minus_fixed_part_per_byte_ge_4096_by_type", top(func(s *typeStat) float64 { return s.MaxResidual }))
 }
 
 func merge(dst, src *childResult) {
@@ -949,6 +965,9 @@ func merge(dst, src *childResult) {
 		}
 		if s.MaxRatio > d.MaxRatio {
 			d.MaxRatio = s.MaxRatio
+		}
+		if s.MaxResidual > d.MaxResidual {
+			d.MaxResidual = s.MaxResidual
 		}
 		if s.MaxDurationMs > d.MaxDurationMs {
 			d.MaxDurationMs = s.MaxDurationMs
